@@ -125,31 +125,56 @@ def numpy_axes(ctx, rng, k):
     check_axes(ctx, out, il, xl, samples, n[0] * n[1], desc)
 
 
+def _sweep_chunk(args):
+    """one worker process: conversions of a 2x2x5 cube for a chunk of (dt, t0) pairs; returns (cases, failures).
+    (Every conversion leaves its two daemon worker threads parked for good, so a long sweep must be spread over
+    short-lived processes.)"""
+    import tempfile, shutil, os
+    dts, t0s = args
+    arr = np.zeros((2, 2, 5), dtype=np.float32)
+    d = tempfile.mkdtemp(prefix='sgzv_sweep_')
+    out = os.path.join(d, 'i.sgz')
+    fails, n = [], 0
+    try:
+        for dt in dts:
+            for t0 in t0s:
+                samples = t0 + np.arange(5) * (dt / 1000.0)
+                n += 1
+                conv.numpy_to_sgz(arr, out, 16, (4, 4, -1), samples=samples)
+                h, _ = spec.read_header(out)
+                if h.dz != dt or h.z0 != t0:
+                    fails.append((f'interval/start stored as ({h.dz} us, {h.z0} ms), source ({dt} us, {t0} ms)', {'dt_us': dt, 't0': t0}))
+                    continue
+                with SgzReader(out) as r:
+                    z = np.asarray(r.zslices)
+                if z.shape != samples.shape or not np.allclose(z, samples, rtol=0, atol=1e-9 * max(1, abs(t0) + 400)):
+                    fails.append((f'sample axis {z.tolist()} != {samples.tolist()}', {'dt_us': dt, 't0': t0}))
+    finally:
+        shutil.rmtree(d, ignore_errors=True)
+    return n, fails
+
+
 def interval_sweep(ctx, rng):
     """sample-interval round trip through the real header writer and reader (NumPy route, 2x2xN cube)"""
-    arr = np.zeros((2, 2, 5), dtype=np.float32)
     if ctx.quick:
         dts = sorted(set([1, 2, 3, 7, 9, 333, 999, 1001, 1003, 4001, 16383, 32767, 32768, 65534, 65535]
                          + rng.integers(1, 65536, size=120).tolist()))
         t0s = [0, -32768, 32767, 100]
+        results = [_sweep_chunk((dts, t0s))]
     else:
-        dts = range(1, 65536)
+        import multiprocessing as mp
+        dts = list(range(1, 65536))
         t0s = [-32768, -1, 0, 1, 100, 32767]
-    out = ctx.path('i.sgz')
+        chunks = [(dts[i:i + 64], t0s) for i in range(0, len(dts), 64)]
+        with mp.get_context('fork').Pool(processes=8, maxtasksperchild=1) as pool:
+            results = pool.map(_sweep_chunk, chunks, chunksize=1)
+    for n, fails in results:
+        ctx.stats['interval_cases'] += n
+        for what, inp in fails:
+            ctx.fail(what, inp)
     for dt in dts:
         for t0 in t0s:
-            samples = t0 + np.arange(5) * (dt / 1000.0)
             ctx.case(('interval', dt, t0), sample=None)
-            ctx.stats['interval_cases'] += 1
-            conv.numpy_to_sgz(arr, out, 16, (4, 4, -1), samples=samples)
-            h, _ = spec.read_header(out)
-            if h.dz != dt or h.z0 != t0:
-                ctx.fail(f'interval/start stored as ({h.dz} us, {h.z0} ms), source ({dt} us, {t0} ms)', {'dt_us': dt, 't0': t0})
-                continue
-            with SgzReader(out) as r:
-                z = np.asarray(r.zslices)
-            if z.shape != samples.shape or not np.allclose(z, samples, rtol=0, atol=1e-9 * max(1, abs(t0) + 400)):
-                ctx.fail(f'sample axis {z.tolist()} != {samples.tolist()}', {'dt_us': dt, 't0': t0})
 
 
 def segy_axes(ctx, rng, k):
@@ -165,7 +190,12 @@ def segy_axes(ctx, rng, k):
     ctx.stats['route_segy'] += 1
     q, bs = (8, (4, 4, 1024)) if k % 3 == 0 else (16, None)
     try:
-        conv.segy_to_sgz(case['path'], out, q, bs, reduce_iops=bool(k % 2))
+        # (C04's hypothesis for the default heuristic detection: two varying fields must not coincide on the first and on the
+        #  last trace; inline and crossline numbers do when both axes start and end alike, so those sources are converted
+        #  with exhaustive detection -- C05 is about geometry, not about header detection)
+        coincide = il[0] == xl[0] and il[-1] == xl[-1]
+        conv.segy_to_sgz(case['path'], out, q, bs, reduce_iops=bool(k % 2),
+                         header_detection='exhaustive' if coincide else 'heuristic')
     except Exception as e:  # noqa
         ctx.fail(f'conversion failed: {type(e).__name__}: {str(e)[:120]}', desc)
         return
